@@ -50,7 +50,15 @@ class _Suspend:
         yield None
 
 
+@dataclasses.dataclass(frozen=True)
+class FrozenError(Exception):
+    """an exception class whose instances reject attribute assignment (add_note, __notes__, ... raise FrozenInstanceError)"""
+
+    code: str = "frozen"
+
+
 EXCS = {
+    "FrozenError": FrozenError,
     "ValueError": ValueError,
     "KeyboardInterrupt": KeyboardInterrupt,
     "Boom": Boom,
